@@ -120,6 +120,8 @@ type Config struct {
 	// DrvSetup is called on the wrapping SQL driver before the store is
 	// initialised (so that Init's operations are visible to hooks).
 	DrvSetup func(*drvwrap.Driver)
+	// CustomSigners, when set, are the witness's keys (instead of Signers).
+	CustomSigners []note.Signer
 	// IDOverride lets a check register a log under a hand-picked ID.
 	IDOverride map[string]string
 }
@@ -143,6 +145,10 @@ type Env struct {
 	// read path is under test and cannot be its own ground truth).
 	mirrorMu sync.Mutex
 	mirror   map[string][]byte
+	// gt: for file-backed stores, a connection of the harness's own for
+	// ground-truth reads of the table (a store that keeps the pool's only
+	// connection to itself must not starve the harness).
+	gt       *sql.DB
 	wrapped  persistence.LogStatePersistence
 	known    map[string]witness.LogInfo
 	// ConfigDiff: how the repository's own log map differs from what was configured ("" = not at all).
@@ -214,6 +220,9 @@ func NewEnv(u *uni.U, cfg Config) *Env {
 		}
 		e.DB = e.Drv.OpenDB(dsn)
 		// As cmd/omniwitness/monolith.go:134-135.
+		if strings.HasPrefix(cfg.Store, "file:") {
+			e.gt, _ = sql.Open("sqlite3", dsn+"?_busy_timeout=5000")
+		}
 		e.DB.SetMaxOpenConns(1)
 		e.Raw = psql.NewPersistence(e.DB)
 	default:
@@ -261,6 +270,9 @@ func NewEnv(u *uni.U, cfg Config) *Env {
 		}
 	}
 	e.Sigs, e.WitVerifs = Signers(u, cfg.Signers)
+	if len(cfg.CustomSigners) > 0 {
+		e.Sigs = cfg.CustomSigners
+	}
 	var p persistence.LogStatePersistence = e.Raw
 	if e.DB == nil {
 		e.mirror = map[string][]byte{}
@@ -320,6 +332,9 @@ func (e *Env) RestartWithout(ids ...string) {
 
 // Close releases the store.
 func (e *Env) Close() {
+	if e.gt != nil {
+		_ = e.gt.Close()
+	}
 	if e.DB != nil {
 		_ = e.DB.Close()
 	}
@@ -337,7 +352,11 @@ func (e *Env) Stored(id string) []byte {
 		// Ground truth for the SQL store is read straight from the table,
 		// not through the persistence object (whose read path is under test).
 		var b []byte
-		err := e.DB.QueryRow("SELECT chkpt FROM chkpts WHERE logID = ?", id).Scan(&b)
+		db := e.DB
+		if e.gt != nil {
+			db = e.gt
+		}
+		err := db.QueryRow("SELECT chkpt FROM chkpts WHERE logID = ?", id).Scan(&b)
 		if err == sql.ErrNoRows {
 			return nil
 		}
